@@ -76,7 +76,9 @@ claimed = {
             "model): with a component destructor armed to panic at every position of every destroying operation on the ten "
             "tracked storages, the events read afterwards still replay to the mask the storage shows.", "5.C12"),
     "C17": ("Theorem: in every accepted transcript each creation takes an index below the peak number of simultaneously "
-            "not-yet-dead entities up to and including that creation (induction over the history, any length); the faithful "
+            "not-yet-dead entities up to and including that creation (induction over the history, any length), and, the "
+            "property's second form, a never-used index is taken only as the next one with every lower index occupied by an "
+            "entity that is alive or awaiting maintain, every other creation reusing a free index; the faithful "
             "(repaired) model refines the specification; the code as found is refuted by a vm_compute witness. Tie as C01 "
             "plus long churn histories.", "5.C17"),
 }
@@ -234,7 +236,9 @@ claimed["C20"] = (
     "The models are Gallina functions of the history, so whatever they compute depends on nothing else; the theorems "
     "(closed under the global context) show that the orders do not come from anywhere but membership: two sets with the "
     "same members are iterated in the same (ascending) order, and two joins whose members agree on every index visit the "
-    "same indices in the same order, whatever the storages' histories and representations. That the implementation "
+    "same indices in the same order, whatever the storages' histories and representations; the records serialize writes "
+    "are, position by position, those of the (entities, markers) join, which is strictly ascending in the entity index. "
+    "That the implementation "
     "computes these functions is the correspondence of C01-C18; this check re-evaluates it between runs: every history "
     "(entity churn, hash-map and all other storages, events, lazy updates, deletions, joins, change sets) is executed in "
     "three processes (fresh hash seeds and address layout; in the third after other worlds and twice in a row), once more "
